@@ -67,7 +67,9 @@ def native_replay(C, pid, fc, ob, extra=None):
                 names = list(f2.params)
             requires_of[k] = {"params": names, "requires": [{"label": l, "text": t} for l, t in f2.requires]}
     clauses = []
-    for label, text in fc.ensures + fc.ensures_exc:
+    from .verify import class_invariants
+    inv = class_invariants(C, fc.key.split(".")[0]) if "." in fc.key and not fc.no_inv else []
+    for label, text in fc.ensures + fc.ensures_exc + inv:
         if isinstance(text, str):
             clauses.append({"label": label, "text": text, "when": "post"})
     spec = {"pid": pid, "file": fc.file, "qualname": fc.qualname, "params": rp["params"],
